@@ -140,6 +140,12 @@ def stepHs (ds : DS) (op impl : String) : Option (DS × StepOut) :=
   | [k, id] =>
     match id.toNat? with
     | some id =>
+      if k == "hpsA" || k == "hpsB" then
+        -- the pre-check through `check_session` (`stepPreSA` / `stepPreSB`)
+        let w' := if k == "hpsA" then stepPreSA ds.hsO ds.hsW id else stepPreSB ds.hsO ds.hsW id
+        let orc := hsJudge ds.hsO ds.hsCs impl false ds.hsFailed
+        some ({ ds with hsW := w' }, { model := hsObs w', oracle := orc, nontrivial := w' != ds.hsW })
+      else
       match hsOp? k id with
       | some hop =>
         let w' := hsStep ds.hsO ds.hsW hop
